@@ -132,6 +132,19 @@ CHECKS = {
         note="Universe of 4 (quick) / 5 (thorough) concrete objects, <=2 arguments per call; validity of the pre-state is the invariant itself.",
         design="3/C11",
     ),
+    "C17": dict(
+        engine="E1+E2",
+        technique="CrossHair (z3) on the real check_array_shape under the configuration captured from every real setter, for all shapes of rank 0..4 / "
+        "dims 0..6 against the documented format; SymNum symbolic execution of the real geometry setters with symbolic vectors: accept/reject are "
+        "solver-decided paths compared with the documented validity predicate; identity/term checks for atomicity and faithful storage",
+        text="Bounded symbolic model checking: shape acceptance of 12 public array attributes is Confirmed over all shapes in the bound; the "
+        "numeric rules (positive sizes, 0<=r1<r2, h>0, phi1<phi2<=phi1+360) are decided for all reals; a rejected assignment leaves the "
+        "attribute the identical object, an accepted one stores a new array with identical terms; None is accepted where documented. "
+        "Counterexamples are replayed through getB to show the later internal failure.",
+        note="Shapes: rank<=4, dims<=6; type grammar beyond shapes/None (strings, ragged/non-numeric sequences) is decided inside np.array (compiled) and "
+        "not modelled; scalar attributes only through CrossHair-free concrete rules; TriangularMesh vertices/faces validation not covered here.",
+        design="3/C17",
+    ),
 }
 
 NOT_APPLICABLE = {
